@@ -237,13 +237,12 @@ func c37Check(progs [][]rOp) func(x *vsync.Execution) (string, []viol) {
 			}
 			return false
 		}
+		// attribution: the first kind (in the given priority order) that has an operation overlapping (from, to]
 		inflight := func(from, to int64, kinds ...int) string {
-			for _, o := range ops {
-				if o.call < to && o.rt > from {
-					for _, k := range kinds {
-						if o.op.Kind == k {
-							return rFuncNames[k]
-						}
+			for _, k := range kinds {
+				for _, o := range ops {
+					if o.op.Kind == k && o.call < to && o.rt > from {
+						return rFuncNames[k]
 					}
 				}
 			}
@@ -309,10 +308,6 @@ func c37Check(progs [][]rOp) func(x *vsync.Execution) (string, []viol) {
 		}
 		outcome := sig.String()
 		if x.Deadlock {
-			rejected := false
-			for _, o := range ops {
-				rejected = rejected || (o.op.Kind == rRestart && o.done && !o.ok)
-			}
 			var stuck []string
 			for t := range w.recs {
 				for i, rc := range w.recs[t] {
@@ -322,10 +317,28 @@ func c37Check(progs [][]rOp) func(x *vsync.Execution) (string, []viol) {
 				}
 			}
 			sort.Strings(stuck)
-			if rejected {
-				add("C37:Restart:rejected-restart-leaks-lock", fmt.Sprintf("after Restart() returned its error (phase >= Share) the round mutex is still held: %v never return(s) (%v)", stuck, x.Blocked))
-			} else {
-				add("C37:deadlock:"+strings.Join(stuck, "+"), fmt.Sprintf("operations never return: %v (%v)", stuck, x.Blocked))
+			// who holds what the blocked threads wait for: the operation of the holder thread that was
+			// running at the logical time of the acquisition
+			leaker, leakerRejected := "", false
+			for _, b := range x.Blocked {
+				if b.HolderThread < 1 || b.HolderThread > len(w.recs) {
+					continue
+				}
+				for i, rc := range w.recs[b.HolderThread-1] {
+					if rc.Done && rc.Call <= b.HolderTick && b.HolderTick < rc.Ret {
+						op := progs[b.HolderThread-1][i]
+						leaker = rFuncNames[op.Kind]
+						leakerRejected = op.Kind == rRestart && !rc.OK
+					}
+				}
+			}
+			switch {
+			case leaker == "Restart" && leakerRejected:
+				add("C37:Restart:rejected-restart-leaks-lock", fmt.Sprintf("Restart() returned its error (phase >= Share) with the round mutex still held: %v never return(s) (%v)", stuck, x.Blocked))
+			case leaker != "":
+				add("C37:"+leaker+":returns-with-lock-held", fmt.Sprintf("%s returned with a lock still held: %v never return(s) (%v)", leaker, stuck, x.Blocked))
+			default:
+				add("C37:deadlock:no-returned-holder", fmt.Sprintf("operations never return: %v (%v)", stuck, x.Blocked))
 			}
 			outcome += " DEADLOCK"
 		}
